@@ -90,7 +90,7 @@ def main():
             na.append({"property_id": pid, "reason": "check not built yet (work in progress; the design in DESIGN.md section 9 applies) - not claimed until its harness package exists"})
     m = {
         "version": 1,
-        "setup_cmd": "cd /verif/harness && GOFLAGS=-mod=mod GOPROXY=off GOSUMDB=off GOTOOLCHAIN=local go build ./... && GOFLAGS=-mod=mod GOPROXY=off GOSUMDB=off GOTOOLCHAIN=local go vet ./cmd/... ./ev/... >/dev/null 2>&1; true",
+        "setup_cmd": "cd /verif/harness && export GOFLAGS=-mod=mod GOPROXY=off GOSUMDB=off GOTOOLCHAIN=local && go build ./... && go test -count=1 ./psref ./t1ref",
         "hooks": {
             "guard": "verif",
             "enable": "go test -tags verif (the harness module replaces seehuhn.de/go/postscript by /repo, so every check compiles /repo's working tree)",
